@@ -38,7 +38,7 @@ def hexl(a):
     return [C.fhex(v) for v in np.asarray(a, dtype=float).ravel()]
 
 
-SPECIAL_ANGLES = [0.0, -0.0, math.pi / 2, -math.pi / 2, math.pi, 2 * math.pi, math.pi / 4, 1e-9, 1e6, -7.5]
+SPECIAL_ANGLES = [0.0, -0.0, math.pi / 2, -math.pi / 2, math.pi, 2 * math.pi, math.pi / 4, 1e-9, 1e6, -7.5, -5e-9, 2e-8, 1e-7]
 
 
 def gen_angles(rng, n_needed, length):
@@ -58,6 +58,8 @@ def gen_anis(rng, length, wide=True):
             a[k] = 1.0
         elif u < 0.3:
             a[k] = float(rng.choice([0.5, 2.0, 0.25, 4.0]))
+        elif u < 0.36:
+            a[k] = 1.0 + float(rng.choice([-1.0, 1.0])) * 10.0 ** rng.uniform(-8, -4)   # around the isclose band of is_isotropic
     return a
 
 
@@ -79,6 +81,17 @@ def gen_cases(rng, tier):
                     if dim >= 5 and (la + ls + rep) % 3:
                         continue
                     cases.append((dim, gen_angles(rng, noa, la), gen_anis(rng, ls)))
+    # both sides of the constants the code classifies with: is_isotropic = isclose(anis, 1) (band 1e-8 + 1e-5),
+    # do_rotation = not isclose(angles, 0) (band 1e-8): weak anisotropy / tiny angles must still be applied exactly
+    for dim in (2, 3, 4):
+        noa = dim * (dim - 1) // 2
+        for d_anis in (0.0, 8e-6, -8e-6, 1e-6, 1e-8, 2e-5, -3e-5, 1e-3):
+            for d_ang in (0.0, 1e-9, -5e-9, 2e-8, 1e-6):
+                if d_anis == 0.0 and d_ang == 0.0:
+                    continue
+                anis = 1.0 + d_anis * rng.uniform(0.5, 1.0, size=dim - 1)
+                angles = d_ang * rng.uniform(0.5, 1.0, size=noa)
+                cases.append((dim, angles, anis))
     return cases
 
 
@@ -332,6 +345,49 @@ def matrix_probes(ctx, rng):
                     viol("xy", "first angle does not rotate the first main axis counter-clockwise in the xy-plane", case)
 
 
+def independent_iso(dim, angles, anis, pos):
+    """isometrize written independently in numpy from the documented convention: rotate back, divide by the ratios"""
+    full = np.concatenate(([1.0], np.asarray(anis, dtype=float)))
+    M = np.diag(1.0 / full) @ doc_rotation(dim, np.asarray(angles, dtype=float)).T
+    return M @ pos, np.abs(M) @ np.abs(pos)
+
+
+def threshold_probes(ctx, rng):
+    """weak anisotropy / tiny angles on both sides of the constants the code classifies with (is_isotropic: isclose(anis, 1),
+    do_rotation: isclose(angles, 0)): the coordinate maps must still apply them exactly"""
+    import gstools as gs
+
+    def viol(name, what, case):
+        if name not in SEEN:
+            SEEN.add(name)
+            ctx.violation("probe: " + name, what, case, key="probe:" + name)
+
+    names = ["Gaussian", "Exponential", "Matern"] if ctx.tier == "quick" else [n for n in HIST_MODELS]
+    for name in names:
+        for dim in (2, 3, 4):
+            noa = dim * (dim - 1) // 2
+            for d_anis in (0.0, 8e-6, -8e-6, 1e-6, 1e-8, 2e-5, 1e-3):
+                for d_ang in (0.0, 1e-9, -5e-9, 2e-8, 1e-6):
+                    anis = 1.0 + d_anis * rng.uniform(0.5, 1.0, size=dim - 1)
+                    angles = d_ang * rng.uniform(0.5, 1.0, size=noa)
+                    scale = float(10.0 ** rng.uniform(0, 5))
+                    pos = rng.normal(size=(dim, int(rng.choice([1, dim, 5])))) * scale
+                    case = dict(model=name, dim=dim, anis=hexl(anis), angles=hexl(angles), pos=hexl(pos))
+                    ctx.count(("threshold", name, dim, d_anis, d_ang), hist=dict(threshold_anis_minus_1=d_anis, threshold_angle=d_ang))
+                    try:
+                        m = getattr(gs, name)(dim=dim, len_scale=10.0, anis=anis, angles=angles)
+                        want, sc = independent_iso(dim, m.angles, m.anis, pos)
+                        ip = m.isometrize(pos)
+                        if not agree(ip, want, sc):
+                            viol("threshold-isometrize", "isometrize(x) is not (rotate back, divide by the ratios)(x) for weak anisotropy / tiny angles", case)
+                        if not agree(m.anisometrize(ip), pos, np.abs(pos) + 1e-300, tol=1e-11):
+                            viol("threshold-round-trip", "anisometrize(isometrize(x)) != x for weak anisotropy / tiny angles", case)
+                        if not C.close(m.cov_spatial(pos), m.covariance(np.linalg.norm(want, axis=0)), rtol=RTOL_PIPE, scale=m.sill):
+                            viol("threshold-cov-spatial", "cov_spatial(x) is not the covariance of |isometrize(x)| for weak anisotropy / tiny angles", case)
+                    except Exception as e:
+                        viol("threshold-exception", "model with weak anisotropy raised %r" % (e,), case)
+
+
 # --------------------------------------------------------------------------- probes: models and pipelines
 
 MODELS_ALL = ["Gaussian", "Exponential", "Matern", "Integral", "Stable", "Rational", "Cubic", "Linear", "Circular",
@@ -403,8 +459,12 @@ def model_probes(ctx, rng):
                              dict(case, axis=i, t=hexl(t)))
                         break
                 # any point: cov_spatial(x) = isotropic covariance at |isometrize(x)|, and round trip
-                pos = rng.normal(size=(dim, 6)) * m.len_scale
+                pos = rng.normal(size=(dim, int(rng.choice([6, dim, 1])))) * m.len_scale
                 ip = m.isometrize(pos)
+                want_ip, sc_ip = independent_iso(dim, m.angles, m.anis, pos)
+                if not agree(ip, want_ip, sc_ip):
+                    viol("isometrize-formula", "isometrize(x) is not (rotate back by the documented rotation, divide by the ratios)(x)",
+                         dict(case, pos=hexl(pos)))
                 if not rel_ok(m.cov_spatial(pos), iso.covariance(np.linalg.norm(ip, axis=0)), m.sill):
                     viol("cov-spatial", "cov_spatial(x) != isotropic covariance of |isometrize(x)|", dict(case, pos=hexl(pos)))
                 sc = np.abs(np.linalg.inv(np.asarray(gs.tools.geometric.matrix_isometrize(dim, m.angles, m.anis)))) @ np.abs(ip)
@@ -547,6 +607,41 @@ def pipeline_probes(ctx, rng):
                             if not rel_ok(w_a, w_i, amp):
                                 viol("vector-field-isotropic", "structured VectorField SRF of an isotropic model with rotation angles != the "
                                      "unrotated isotropic model's field on the same grid", dict(case, axes=[hexl(a) for a in axs]))
+                    # --- Fourier generator: the period box is given in the coordinates of x, the modes carry the ratios
+                    # (delta_k = 2 pi / period * ratio), so the isotropic twin has the period period_i / ratio_i along
+                    # axis i of the isotropic coordinates.  Ratios and mode numbers are powers of two here, so that both
+                    # mode grids are bit-identical (np.arange lengths included) and the comparison is tight.
+                    if 2 <= dim <= 3:
+                        fkind = next(kinds)
+                        ratios2 = 2.0 ** rng.integers(-2, 3, size=dim - 1)
+                        if fkind == 2:
+                            ratios2[:] = 1.0
+                        elif not np.any(ratios2 != 1.0):
+                            ratios2[0] = 0.5
+                        fang = gen_angles(rng, dim * (dim - 1) // 2, dim * (dim - 1) // 2) if fkind != 1 else np.zeros(dim * (dim - 1) // 2)
+                        fang[np.abs(fang) > 100] = 1.0
+                        kwf = dict(dim=dim, var=m.var, len_scale=m.len_scale)
+                        mf = getattr(gs, name)(anis=ratios2, angles=fang if len(fang) else 0.0, **kwf)
+                        tf = getattr(gs, name)(**kwf)
+                        period = rng.uniform(8, 30, size=dim) * m.len_scale
+                        mode_no = [int(v) for v in 2 ** rng.integers(2, 4, size=dim)]
+                        full = np.concatenate(([1.0], ratios2))
+                        fcase = dict(case, generator="Fourier", anis=hexl(ratios2), angles=hexl(fang), period=hexl(period), mode_no=mode_no)
+                        ctx.count(("fourier", name, dim, fkind), hist=dict(generator="Fourier", fourier_kind=["anis+rotation", "anis only", "rotation only"][fkind]))
+                        f_a = gs.SRF(mf, generator="Fourier", period=list(period), mode_no=mode_no, seed=seed)(pos)
+                        f_i = gs.SRF(tf, generator="Fourier", period=list(period / full), mode_no=mode_no, seed=seed)(mf.isometrize(pos))
+                        if not rel_ok(f_a, f_i, amp):
+                            viol("srf-fourier", "Fourier SRF with anisotropic rotated model and period P != isotropic model with period "
+                                 "P_i / ratio_i at isometrize(x)", fcase)
+                        if fkind == 1:
+                            # unrotated: the field is periodic in the box of x
+                            shift = np.zeros((dim, 1))
+                            j = int(rng.integers(dim))
+                            shift[j] = period[j]
+                            srf_f = gs.SRF(mf, generator="Fourier", period=list(period), mode_no=mode_no, seed=seed)
+                            if not rel_ok(srf_f(pos + shift), f_a, amp * 1e3):
+                                viol("srf-fourier-periodic", "Fourier SRF of an unrotated anisotropic model is not periodic with the given period",
+                                     dict(fcase, axis=j))
                     # --- kriging
                     nc = 8
                     cpos = rng.uniform(-5, 5, size=(dim, nc)) * m.len_scale
@@ -784,6 +879,48 @@ def scribble(rng, callers, log):
         log.append("caller edits its %s array in place -> %s" % (c[0], hexl(c[1])))
 
 
+def edit_returned(gs, drv, rng, m, sh, log):
+    """the caller edits, in place, an array the library RETURNED (plot arrows from main_axes, normalised axes, ...).
+    Results are the caller's property: no later evaluation - by this or any other model - may depend on it.
+    model.anis / model.angles hand out the stored parameters themselves: editing them IS an in-place parameter change,
+    the present parameters are re-read from the model afterwards."""
+    G = gs.tools.geometric
+    dim = sh.dim
+    pos = rng.normal(size=(dim, int(rng.choice([1, dim, 5])))) * 3
+    srcs = [("model.main_axes()", lambda: m.main_axes()), ("model.len_scale_vec", lambda: m.len_scale_vec),
+            ("model.isometrize(pos)", lambda: m.isometrize(pos)), ("model.anisometrize(pos)", lambda: m.anisometrize(pos)),
+            ("model._get_iso_rad(pos)", lambda: m._get_iso_rad(pos)),
+            ("matrix_rotate", lambda: G.matrix_rotate(dim, m.angles)), ("matrix_derotate", lambda: G.matrix_derotate(dim, m.angles)),
+            ("matrix_isometrize", lambda: G.matrix_isometrize(dim, m.angles, m.anis)),
+            ("matrix_anisometrize", lambda: G.matrix_anisometrize(dim, m.angles, m.anis)),
+            ("matrix_isotropify", lambda: G.matrix_isotropify(dim, m.anis)), ("matrix_anisotropify", lambda: G.matrix_anisotropify(dim, m.anis)),
+            ("rotated_main_axes", lambda: G.rotated_main_axes(dim, m.angles)),
+            ("set_angles(model.angles)", lambda: G.set_angles(dim, np.array(m.angles))), ("set_anis(model.anis)", lambda: G.set_anis(dim, np.array(m.anis))),
+            ("model.anis", None), ("model.angles", None)]
+    nm, f = srcs[int(rng.integers(len(srcs)))]
+    if f is not None:
+        arr = f()
+        if isinstance(arr, np.ndarray) and arr.size and arr.flags.writeable:
+            arr *= 1.75
+            arr += 0.5
+            log.append("caller edits the array returned by %s in place" % nm)
+        return
+    noa_sp = (dim - 1) * (dim - 2) // 2 if sh.temporal else dim * (dim - 1) // 2
+    if nm == "model.anis" and dim > 1:
+        a = m.anis
+        a *= 1.5
+        log.append("caller scales the array returned by model.anis in place (= parameter change) -> %s" % hexl(m.anis))
+    elif nm == "model.angles" and noa_sp > 0:
+        a = m.angles
+        a[0] += 0.3
+        log.append("caller edits entry 0 of the array returned by model.angles in place (= parameter change) -> %s" % hexl(m.angles))
+    else:
+        return
+    r = Shadow(drv, m.dim, [float(m.len_scale)], np.asarray(m.anis) if m.dim > 1 else [1.0], np.asarray(m.angles) if len(m.angles) else [0.0], sh.temporal)
+    sh.set((r.dim, r.len, r.anis, r.angles))
+    return True
+
+
 def make_sibling(gs, drv, rng, cls, m, sh, callers, siblings, log):
     """another model built from arrays the first one was built from / hands out"""
     u = rng.random()
@@ -823,9 +960,11 @@ def model_histories(ctx, drv, rng):
                 u = rng.random()
                 if u < 0.15:
                     log.append("evaluate")
-                elif u < 0.3:
+                elif u < 0.24:
                     scribble(rng, callers, log)
-                elif u < 0.42:
+                elif u < 0.36:
+                    edit_returned(gs, drv, rng, m, sh, log)
+                elif u < 0.44:
                     make_sibling(gs, drv, rng, cls, m, sh, callers, siblings, log)
                 elif u < 0.5:
                     log.append("model.rescale = ...")
@@ -936,7 +1075,10 @@ def holder_histories(ctx, drv, rng):
                         break
                     continue
                 if u < 0.38:
-                    scribble(rng, callers, log)
+                    if rng.random() < 0.5:
+                        scribble(rng, callers, log)
+                    elif edit_returned(gs, drv, rng, m, sh, log):
+                        dirty["kr"] = dirty["cs"] = True
                     if not check_model(ctx, gs, drv, rng, m, sh, log, callers, siblings, "holder history %d step %d" % (h, k)):
                         break
                     continue
@@ -1020,6 +1162,87 @@ def holder_histories(ctx, drv, rng):
                               key="probe:history-exception")
 
 
+# --------------------------------------------------------------------------- purity: results are the caller's property
+
+def purity_probes(ctx, rng):
+    """every function of tools/geometric.py and every coordinate method of CovModel is a pure function of its
+    arguments / of the model's present parameters: the arguments are left alone, and whatever the caller does to a
+    RETURNED array, a later call with equal arguments - through the same or ANOTHER model - returns the same values
+    (no module-level cache handing out its own storage, no view of internal state)"""
+    import gstools as gs
+    from gstools.tools import geometric as G
+
+    def viol(name, what, case):
+        if name not in SEEN:
+            SEEN.add(name)
+            ctx.violation("probe: " + name, what, case, key="probe:" + name)
+
+    reps = 12 if ctx.tier == "thorough" else 3
+    for dim in (1, 2, 3, 4):
+        noa = dim * (dim - 1) // 2
+        for rep in range(reps):
+            angles = gen_angles(rng, noa, max(noa, 1))
+            angles[np.abs(angles) > 100] = 1.0
+            anis = gen_anis(rng, max(dim - 1, 1), wide=False)
+            npts = int(rng.choice([1, 2, dim, dim + 1, 6]))
+            pos = rng.normal(size=(dim, npts)) * 3
+            layout = ["C", "F", "strided"][int(rng.integers(3))]
+
+            def lay(a):
+                a = np.array(a, dtype=float)
+                if layout == "F":
+                    return np.asfortranarray(a)
+                if layout == "strided" and a.ndim == 2:
+                    big = np.zeros((a.shape[0], 2 * a.shape[1]))
+                    big[:, ::2] = a
+                    return big[:, ::2]
+                return a
+            mk = lambda: gs.Exponential(dim=dim, len_scale=2.0, anis=list(anis[: dim - 1]) if dim > 1 else 1.0,
+                                        angles=list(angles[:noa]) if noa else 0.0)
+            m1 = mk()
+            calls = [
+                ("set_angles", lambda a, s, p: G.set_angles(dim, a)), ("set_anis", lambda a, s, p: G.set_anis(dim, s)),
+                ("givens_rotation", lambda a, s, p: G.givens_rotation(dim, (0, dim - 1), a[0]) if dim > 1 else np.eye(1)),
+                ("matrix_rotate", lambda a, s, p: G.matrix_rotate(dim, a)), ("matrix_derotate", lambda a, s, p: G.matrix_derotate(dim, a)),
+                ("matrix_isotropify", lambda a, s, p: G.matrix_isotropify(dim, s)), ("matrix_anisotropify", lambda a, s, p: G.matrix_anisotropify(dim, s)),
+                ("matrix_isometrize", lambda a, s, p: G.matrix_isometrize(dim, a, s)), ("matrix_anisometrize", lambda a, s, p: G.matrix_anisometrize(dim, a, s)),
+                ("rotated_main_axes", lambda a, s, p: G.rotated_main_axes(dim, a)),
+                ("CovModel.main_axes", lambda a, s, p: m1.main_axes()), ("CovModel.isometrize", lambda a, s, p: m1.isometrize(p)),
+                ("CovModel.anisometrize", lambda a, s, p: m1.anisometrize(p)), ("CovModel._get_iso_rad", lambda a, s, p: m1._get_iso_rad(p)),
+                ("CovModel.len_scale_vec", lambda a, s, p: m1.len_scale_vec), ("CovModel.cov_spatial", lambda a, s, p: m1.cov_spatial(p)),
+            ]
+            for nm, f in calls:
+                a0, s0, p0 = np.array(angles), np.array(anis), lay(pos)
+                case = dict(fn=nm, dim=dim, angles=hexl(angles), anis=hexl(anis), pos=hexl(pos), npts=npts, layout=layout)
+                ctx.count(("purity", nm, dim, layout, npts == dim), hist=dict(purity_fn=nm, pos_layout=layout, npts_vs_dim="n==dim" if npts == dim else "n!=dim"))
+                try:
+                    r1 = f(a0, s0, p0)
+                    if not (C.bit_equal(a0, angles) and C.bit_equal(s0, anis) and C.bit_equal(p0, pos)):
+                        viol("purity-args", "%s wrote into its arguments" % nm, case)
+                    keep = np.array(r1, dtype=float)
+                    # the same values for every memory layout of the positions
+                    rc = f(np.array(angles), np.array(anis), np.ascontiguousarray(pos))
+                    if not agree(rc, keep, tol=0.0):
+                        viol("purity-layout", "%s depends on the memory layout of the position array" % nm, case)
+                    if isinstance(r1, np.ndarray) and r1.size and r1.flags.writeable:
+                        r1 *= -2.5
+                        r1 += 0.75
+                    for who, g in (("the same object", f), ("another model with equal parameters", None)):
+                        if g is None:
+                            if not nm.startswith("CovModel."):
+                                continue
+                            m2 = mk()
+                            attr = nm.split(".")[1]
+                            g = (lambda a, s, p: getattr(m2, attr)) if attr == "len_scale_vec" else (
+                                (lambda a, s, p: getattr(m2, attr)()) if attr == "main_axes" else (lambda a, s, p: getattr(m2, attr)(p)))
+                        r2 = g(np.array(angles), np.array(anis), np.array(pos))
+                        if not agree(r2, keep, tol=0.0):
+                            viol("purity-result", "after the caller edited the array returned by %s in place, a later call (%s) "
+                                 "returns other values: the result was not the caller's own copy" % (nm, who), case)
+                except Exception as e:
+                    viol("purity-exception", "%s raised %r" % (nm, e), case)
+
+
 # --------------------------------------------------------------------------- run
 
 def run(ctx):
@@ -1053,6 +1276,8 @@ def run(ctx):
         drv = C.Driver("c12")
     else:
         tie_broken.append("extraction/driver build: " + out[-400:])
+    # first: a poisoned module-level cache would make every later stage fail with inputs that do not reproduce alone
+    purity_probes(ctx, C.Rng(ctx.seed, "C12/purity"))
     try:
         if drv is not None:
             correspondence(ctx, drv, rng, bad)
@@ -1064,6 +1289,7 @@ def run(ctx):
     matrix_probes(ctx, C.Rng(ctx.seed, "C12/matrix"))
     model_probes(ctx, C.Rng(ctx.seed, "C12/models"))
     temporal_probes(ctx, C.Rng(ctx.seed, "C12/temporal"))
+    threshold_probes(ctx, C.Rng(ctx.seed, "C12/threshold"))
     pipeline_probes(ctx, C.Rng(ctx.seed, "C12/pipes"))
     if bad:
         names = sorted(set(b[0] for b in bad))
